@@ -177,7 +177,7 @@ func (C11) Meta() core.Meta {
 		Real:        []string{"filippo.io/age Encrypt (label comparison, wrap loop, header marshal)", "native recipients", "plugin.Recipient (client side of the plugin protocol)", "cmd/age binary with real plugin processes (one run in 40: shell scripts speaking recipient-v1, one name without a binary)"},
 		Stub:        []string{"sim-owned recipients with chosen label lists / injected wrap failure", "destination (write-call counter)", "crypto/rand.Reader (tape)"},
 		FaultKinds:  []string{"fault.wrap_failure", "fault.csprng_read_fails_once", "fault.cli_plugin_binary_missing"},
-		Probes:      []string{"probe.equal_sets_different_order", "probe.proper_subset", "probe.disjoint", "probe.empty_vs_absent", "probe.scrypt_with_other", "probe.two_scrypt", "probe.refused_labels", "probe.refused_wrap_failure", "probe.accepted", "probe.fail_at_last_position", "probe.differ_at_last_position", "probe.repeated_label_same_multiset", "probe.repeated_label_sets_differ", "probe.repeated_label_ambiguous", "probe.refused_after_more_than_4KiB_of_header", "probe.labels_with_space_or_empty", "probe.plugin_recipient", "probe.plugin_recipient_from_identity", "probe.embedded_scrypt_recipient", "probe.cli_real_plugin_processes", "probe.cli_refused_list", "probe.cli_accepted_list"},
+		Probes:      []string{"probe.equal_sets_different_order", "probe.proper_subset", "probe.disjoint", "probe.empty_vs_absent", "probe.scrypt_with_other", "probe.two_scrypt", "probe.refused_labels", "probe.refused_wrap_failure", "probe.accepted", "probe.fail_at_last_position", "probe.differ_at_last_position", "probe.repeated_label_same_multiset", "probe.repeated_label_sets_differ", "probe.repeated_label_ambiguous", "probe.refused_after_more_than_4KiB_of_header", "probe.labels_with_space_or_empty", "probe.plugin_recipient", "probe.plugin_recipient_from_identity", "probe.embedded_scrypt_recipient", "probe.cli_real_plugin_processes", "probe.cli_refused_list", "probe.cli_accepted_list", "probe.cli_recipients_file"},
 	}
 }
 
@@ -344,8 +344,16 @@ func (C11) Shrinks(plan interface{}) []interface{} {
 			if len(cl.Recips) > 1 {
 				q := *cl
 				q.Recips = append(append([]string(nil), cl.Recips[:i]...), cl.Recips[i+1:]...)
+				if i < len(cl.Via) {
+					q.Via = append(append([]int(nil), cl.Via[:i]...), cl.Via[i+1:]...)
+				}
 				out = append(out, &C11Plan{CLI: &q})
 			}
+		}
+		if len(cl.Via) > 0 {
+			q := *cl
+			q.Via = nil
+			out = append(out, &C11Plan{CLI: &q})
 		}
 		if cl.PLen > 0 {
 			q := *cl
